@@ -175,3 +175,22 @@ func DetBytes(label string, n int) []byte {
 	_, _ = NewDetStream([]byte(label)).Read(b)
 	return b
 }
+
+// IllFormedSeqs are byte sequences that are not well-formed UTF-8, one per way of being ill-formed: stray
+// continuation byte, lead byte without continuation, overlong encodings (2, 3 and 4 bytes), encoded surrogate
+// halves, code points above U+10FFFF, and bytes that never occur in UTF-8.
+var IllFormedSeqs = [][]byte{
+	{0x80}, {0xbf}, {0xc3}, {0xe2, 0x82}, {0xf0, 0x9f, 0x98},
+	{0xc0, 0x80}, {0xc0, 0xaf}, {0xc1, 0xbf}, {0xe0, 0x80, 0x80}, {0xe0, 0x9f, 0xbf}, {0xf0, 0x80, 0x80, 0x80}, {0xf0, 0x8f, 0xbf, 0xbf},
+	{0xed, 0xa0, 0x80}, {0xed, 0xbf, 0xbf}, {0xed, 0xad, 0xbf, 0xed, 0xb0, 0x80},
+	{0xf4, 0x90, 0x80, 0x80}, {0xf7, 0xbf, 0xbf, 0xbf}, {0xf5, 0x80, 0x80, 0x80},
+	{0xf8, 0x88, 0x80, 0x80, 0x80}, {0xfe}, {0xff}, {0xff, 0xfe},
+}
+
+// IllFormedUTF8 draws a string that contains exactly one ill-formed sequence, possibly between well-formed text.
+func IllFormedUTF8(t *rapid.T, label string) string {
+	seq := rapid.SampledFrom(IllFormedSeqs).Draw(t, label+"-seq")
+	pre := rapid.SampledFrom([]string{"", "", "a", "verif/", "é"}).Draw(t, label+"-pre")
+	post := rapid.SampledFrom([]string{"", "", "b", "/x", "ü"}).Draw(t, label+"-post")
+	return pre + string(seq) + post
+}
